@@ -284,8 +284,14 @@ def check_locked(pid, tier="quick", seed=None, extra_env=None):
     if os.path.exists(ev_path):
         os.remove(ev_path)
 
-    # 1. proofs
+    # 0. translators (regenerate Gallina from /repo's current source); failure = broken translation tie
     d = spec["coq_dir"]
+    pre = spec.get("coq_pre_cmd")
+    if pre:
+        rcp, outp, _ = sh(pre, cwd=ROOT, timeout=600)
+        if rcp != 0:
+            broken.append({"kind": "broken-translation", "what": "translator `%s` failed on /repo's current source" % pre, "log": outp[-3000:]})
+    # 1. proofs
     deps = spec.get("coq_targets", [d + "/Proofs.vo"])
     rc, out, dt_coq = coq_build(deps)
     if rc != 0:
@@ -433,6 +439,9 @@ def setup():
     use = {k: v for k, v in specs.items() if (not registered or k in registered)}
     targets = []
     for s in use.values():
+        if s.get("coq_pre_cmd"):
+            r, o, _ = sh(s["coq_pre_cmd"], cwd=ROOT, timeout=600)
+            print("translator %s: rc=%d" % (s["coq_pre_cmd"], r))
         targets += s.get("coq_targets", [s["coq_dir"] + "/Proofs.vo"])
     rc, out, dt = coq_build(["-k"] + sorted(set(targets)))
     print("coq build (%d targets): rc=%d %.0fs" % (len(set(targets)), rc, dt))
